@@ -524,6 +524,27 @@ impl Hist {
                     body.as_object_mut().unwrap().remove("actor_id");
                 }
                 let path = format!("/threads/{}/provider-cursor-rotate", enc(&tid));
+                // independent of the answer: does the raw log hold a cursor frame of this thread that the filters select?
+                // (a filter selects a frame only if the frame carries that very value)
+                let no_cursor_selected = if idc == "real" && self.pending.is_empty() {
+                    crate::truth::parse_log(&self.store.log_bytes_settled()).ok().map(|frames| {
+                        let want = |k: &str| body.get(k).and_then(|x| x.as_str()).map(|s| s.to_string());
+                        let (fp, fe, fm) = (want("provider"), want("endpoint"), want("model"));
+                        !crate::truth::stream(&frames, "continuity", &tid).iter().any(|f| {
+                            f.ty() == "continuity_provider_cursor_updated"
+                                && fp.as_deref().map(|x| f.v.get("provider").and_then(|y| y.as_str()) == Some(x)).unwrap_or(true)
+                                && fe.as_deref().map(|x| f.v.get("endpoint").and_then(|y| y.as_str()) == Some(x)).unwrap_or(true)
+                                && fm.as_deref().map(|x| f.v.get("model").and_then(|y| y.as_str()) == Some(x)).unwrap_or(true)
+                        })
+                    })
+                } else {
+                    None
+                };
+                match no_cursor_selected {
+                    Some(true) => r.count("rotate_calls_selecting_no_cursor_by_raw_log", 1),
+                    Some(false) => r.count("rotate_calls_selecting_a_cursor_by_raw_log", 1),
+                    None => {}
+                }
                 let (st, b) = send(&app, "POST", &path, Some("application/json"), jbody(&body)).await?;
                 let v = parse(&b);
                 let mut acked = vec![];
@@ -531,6 +552,8 @@ impl Hist {
                     Expect::Nothing("rejected_4xx")
                 } else if st == 200 && v.get("rotated") == Some(&json!(false)) {
                     Expect::Nothing("rotate_nothing_to_rotate")
+                } else if no_cursor_selected == Some(true) && st < 300 {
+                    Expect::Nothing("rotate_selects_no_cursor_by_raw_log")
                 } else {
                     if let Some(id) = v.get("cursor_event_id").and_then(|x| x.as_str()) {
                         acked.push(id.to_string());
